@@ -561,6 +561,10 @@ type c09ClientCase struct {
 	Responses []*Octets          `json:"responses"` // response to the i-th challenge (nil pointer = nil slice)
 	ErrAt     int                `json:"err_at"`    // Next fails at this step (-1 = never)
 	Server    harness.SASLScript `json:"server"`
+	// HangUp: the scripted peer closes the connection right after its final
+	// reply to the exchange (a server may: 421 / 535 and goodbye). The result
+	// of Auth is still that reply.
+	HangUp bool `json:"hang_up,omitempty"`
 }
 
 type scriptedSASLClient struct {
@@ -669,6 +673,9 @@ func c09ClientRun(c c09ClientCase) Verdict {
 		break
 	}
 	v.Classes = append(v.Classes, "outcome_"+outcome)
+	if c.HangUp && outcome != "client-error" {
+		v.Classes = append(v.Classes, "peer_hangs_up_after_final_reply")
+	}
 	if len(mech.challenges) != len(wantClient) {
 		return failf("client-input", "client mechanism received %d challenges, the server sent %d (outcome %s, Auth returned %v)", len(mech.challenges), len(wantClient), outcome, authErr)
 	}
@@ -724,6 +731,7 @@ func c09ClientRun(c c09ClientCase) Verdict {
 // none), "*" cancels. It plays the case's server script and records what it
 // decoded.
 type c09StrictPeer struct {
+	hangUp bool
 	script harness.SASLScript
 	got    [][]byte
 	gotNil bool // no initial response
@@ -822,6 +830,9 @@ func (p *c09StrictPeer) serve(conn net.Conn) {
 				io.WriteString(conn, "535 5.7.8 no\r\n")
 				afterRefusal = true
 			}
+			if p.hangUp {
+				return
+			}
 		case strings.HasPrefix(up, "QUIT"):
 			io.WriteString(conn, "221 2.0.0 bye\r\n")
 			return
@@ -838,7 +849,7 @@ func (p *c09StrictPeer) serve(conn net.Conn) {
 func c09StrictRun(c c09ClientCase, wantServer [][]byte, firstNil bool, outcome string) *Verdict {
 	hub := harness.NewHub()
 	clEnd, svEnd := harness.Pair(hub)
-	peer := &c09StrictPeer{script: c.Server, done: make(chan struct{})}
+	peer := &c09StrictPeer{script: c.Server, hangUp: c.HangUp, done: make(chan struct{})}
 	go peer.serve(svEnd)
 	cl := smtp.NewClient(clEnd)
 	var authErr, noopErr error
@@ -880,6 +891,17 @@ func c09StrictRun(c c09ClientCase, wantServer [][]byte, firstNil bool, outcome s
 		v := failf("client-result", "against the strict peer the exchange ends in %s but Auth returned %v", outcome, authErr)
 		return &v
 	}
+	if outcome == "failed" {
+		// the result reported is the server's final reply - also when the
+		// server hangs up behind it
+		if se, isSMTP := authErr.(*smtp.SMTPError); !isSMTP || se.Code != 535 || se.EnhancedCode != (smtp.EnhancedCode{5, 7, 8}) || se.Message != "no" {
+			v := failf("client-result", "the strict peer's final reply is \"535 5.7.8 no\" (hang up afterwards: %v) but Auth returned %T %v", c.HangUp, authErr, authErr)
+			return &v
+		}
+	}
+	if c.HangUp && outcome != "client-error" {
+		return nil // the connection is gone, as scripted
+	}
 	if noopErr != nil {
 		v := failf("usable", "after Auth (%s) against the strict peer the next command fails: %v", outcome, noopErr)
 		return &v
@@ -915,6 +937,7 @@ func c09GenClient(t *rapid.T) c09ClientCase {
 		c.ErrAt = rapid.IntRange(0, len(c.Server.Challenges)-1).Draw(t, "errat")
 	}
 	c.StartErr = rapid.IntRange(0, 15).Draw(t, "starterr") == 0
+	c.HangUp = rapid.IntRange(0, 3).Draw(t, "hang_up") == 0
 	return c
 }
 
